@@ -12,6 +12,8 @@
              props/C02net.v           netlist level on top of the regenerated C01 files: the inverse transforms of
                                       any ivp/s-domain MNA solution satisfy KCL, every ODE and instantaneous law
              Gen/C02_switch.v         the switch comparisons / loop of the CURRENT source agree with the specification
+             props/C02init.v + Gen/C02_init.v   initialize(before, T) of the CURRENT source (tools/tr_initialize.py) hands every reactive
+                                      component the state variable of `before` at T
   correspond circuits with CHOSEN natural frequencies (real / repeated / complex Gaussian-rational; element values
              derived from the pole pattern) x sources (step, dc, exp, t*exp, cos, delayed, impulse, ac) x initial
              conditions: Lcapy's cpt.v / cpt.i / node voltages parsed to the exp-poly normal form and compared inside
@@ -20,6 +22,9 @@
   search     exact sympy oracle on Lcapy's raw expressions: i - C v' , v - L i' - M i_k', Ohm, sources, controlled
              sources, transformer, KCL at every node at rational t > 0; limits at 0+/0-; values at t < 0;
              switched circuits: convert_IVP initial conditions vs the interval-by-interval reference
+  symbolic   circuits solved with symbolic R, L, C, v0, i0: Lcapy's closed forms (time and s-domain) specialised at a rational
+             point with chosen natural frequencies, then the same correspondence / law check / oracle; props/C02.v
+             case_items_sound, case_models_are_inverses, case_capacitor_ode state what an empty verdict means
 """
 import json
 import os
@@ -42,14 +47,22 @@ MANIFEST = {
             '(ode_from_sdomain): the inverse transforms of any ivp/s MNA solution satisfy KCL, every ODE and instantaneous law; '
             'ode_from_mna_wf discharges the coupled-inductor condition from the kind invariant; causal_zero_gen with the causality flags translated from '
             'Analysis.__init__ and MNA._solve; switch_handover for the specification of convert_IVP; the switch comparisons AND the loop of convert_IVP '
-            'are translated from the source on every run and proved to perform exactly the specification\'s hand-overs (convert_loop_ok). '
+            'are translated from the source on every run and proved to perform exactly the specification\'s hand-overs (convert_loop_ok); the hand-over itself '
+            '(Netlist.initialize, _initialize_from_circuit, Cpt/C/L._initialize) is translated into a record and proved to give every reactive component the state variable '
+            '(capacitor voltage, inductor current) of the same-named component of the previous circuit at T, value and name unchanged (init_gen_ok, initialize_gen_hands_over_state). '
             'Each run ties this to the code: Lcapy\'s time-domain results are parsed to the normal form and compared inside Coq with the '
-            'inverse of its own certified s-domain solution, and the laws are checked on those signals by the verified checker.',
+            'inverse of its own certified s-domain solution, and the laws are checked on those signals by the verified checker '
+            '(case_items_sound: an empty verdict means exactly that; case_models_are_inverses; case_capacitor_ode: the ODE and the initial state of every capacitor of an accepted case). '
+            'Circuits are also solved with SYMBOLIC element values and initial conditions; the closed forms Lcapy returns are specialised at the rational point the '
+            'generator derived from the chosen natural frequencies and go through the same in-Coq comparison, in-Coq law check and exact oracle; a closed form that '
+            'is undefined at a point where the poles keep their generic multiplicities is a violation.',
     'note': 'Trusted: Coq kernel/vm_compute; specification coq/theory/ExpPoly.v (signals, D, L) and TimeDomCircuit.v (textbook laws); the '
-            'sympy-based parsers in tools/impl_timedom.py; translators tools/tr_stamps.py, tools/tr_switch.py, tools/tr_analysis.py. Partial: poles are found by '
+            'sympy-based parsers in tools/impl_timedom.py; translators tools/tr_stamps.py, tools/tr_switch.py, tools/tr_analysis.py, tools/tr_initialize.py. Partial: poles are found by '
             'sympy (oracle, accepted only through the verified certificate check pf_check), so only Gaussian-rational natural frequencies '
-            'are compared inside Coq; symbolic element values are covered by the theorems only. ode_from_mna excludes dc analyses and non-constant '
-            'gains; coupled inductors with initial currents are covered for the ivp kind (k_ic_ok_wf). initialize()/C._initialize/L._initialize and the '
+            'are compared inside Coq (symbolic element values: at rational points with Gaussian-rational natural frequencies, distinct from each other and '
+            'from the poles of the source - the generic closed form is not defined where they meet, such points are counted as symbolic_degenerate_point_skipped). '
+            'ode_from_mna excludes dc analyses and non-constant '
+            'gains; coupled inductors with initial currents are covered for the ivp kind (k_ic_ok_wf). The dictionary form of initialize() and the '
             'SWspdt arm stay hand-tied by the instrumented run and the reference initial conditions; UnilateralInverseTransformer.make is C10\'s hand model.',
     'technique': 'Coq proof over an abstract signal algebra + per-class transfer to the C01 stamp semantics + in-Coq correspondence '
                  'evaluation with verified per-case law checking + exact sympy search oracle',
@@ -1233,7 +1246,8 @@ def run(tier='quick', replay=None):
             'coq/theory/TimeDomCircuit.v (textbook time-domain law of every component class), coq/theory/TimeDomSwitch.v (switch specification)',
             'translators tools/tr_stamps.py (sha256 %s), tools/tr_switch.py (sha256 %s)' % (
                 core.sha256_file(os.path.join(core.VERIF, 'tools', 'tr_stamps.py'))[:16], core.sha256_file(os.path.join(core.VERIF, 'tools', 'tr_switch.py'))[:16])
-            + ', tools/tr_analysis.py (sha256 %s)' % core.sha256_file(os.path.join(core.VERIF, 'tools', 'tr_analysis.py'))[:16],
+            + ', tools/tr_analysis.py (sha256 %s)' % core.sha256_file(os.path.join(core.VERIF, 'tools', 'tr_analysis.py'))[:16]
+            + ', tools/tr_initialize.py (sha256 %s)' % core.sha256_file(os.path.join(core.VERIF, 'tools', 'tr_initialize.py'))[:16],
             'parsers in tools/impl_timedom.py (sympy rewrite(exp)/expand of Lcapy\'s time expressions; decomposition of the s-domain value into delayed rational functions); '
             'the law list built by checks/c02.py from the generator\'s own element values',
             'oracles, not verified: sympy.roots / div / residues (accepted only through the verified pf_check), sympy linear solve inside Lcapy',
@@ -1318,6 +1332,20 @@ def run(tier='quick', replay=None):
                     texts[f] = open(os.path.join(core.VERIF, 'coq', 'props', f)).read()
                     w.write(f, texts[f])
                     first[f] = None
+            # the hand-over of the reactive state: Netlist.initialize / _initialize_from_circuit / Cpt, C, L._initialize translated into a
+            # record; model + specification coq/props/C02init.v is pasted in front of the generated definition and theorems
+            try:
+                import tr_initialize as TI
+                ti = TI.InitTranslation(core.REPO)
+                texts['C02_init.v'] = open(os.path.join(core.VERIF, 'coq', 'props', 'C02init.v')).read() + '\n' + ti.coq_defs() + TI.theorems()
+                w.write('C02_init.v', texts['C02_init.v'])
+                first['C02_init.v'] = None
+                res.extra['translated_initialize'] = {'record': ti.record(), 'source': ti.src}
+            except Exception as e:
+                if type(e).__name__ not in ('Untranslatable', 'OSError', 'SyntaxError', 'FileNotFoundError'):
+                    raise
+                res.failed_obl.append(('translate_initialize', 'lcapy/netlist.py, lcapy/netlistmixin.py, lcapy/mnacpts.py', str(e)))
+                res.obligations += 1
             texts['C02.v'] = open(os.path.join(core.VERIF, 'coq', 'props', 'C02.v')).read()
             w.write('C02.v', texts['C02.v'])
             first['C02.v'] = None
@@ -1491,7 +1519,8 @@ def run(tier='quick', replay=None):
                     'cascades incl. repeated real and repeated complex pairs, transformer, VCCS, CCVS, CCCS, coupled inductors, steady state + transient) x 15 source '
                     'kinds (step, dc, exp, t exp, t^k, t^k exp, ramp, delayed step/exp, pulse, impulse, cos, sin, damped cos, ac; resonant with a natural frequency on demand) x '
                     'initial conditions; every element voltage/current and node voltage observed; + convert_IVP experiments (1-3 switches, RC/RL, query time '
-                    'before/at/between/after the instants); non-trivial = at least one quantity parsed to the normal form')
+                    'before/at/between/after the instants); + circuits with SYMBOLIC R, L, C and initial conditions (9 families, distinct real / complex / imaginary natural frequencies, '
+                    '13 source kinds) whose closed forms are specialised at the generator\'s rational point; non-trivial = at least one quantity parsed to the normal form')
 
         # 4. decide
         by_key = {}
